@@ -137,6 +137,12 @@ class ExactAlgorithmCplex(ExactAlgorithmBase, PairwiseBasedAlgorithm):
                 else:
                     # update the ranking to return
                     new_dataset: Dataset = dataset.sub_problem_from_ids(scc_i_set)
+                    # the projection drops the rankings that contain no element of the component, but these
+                    # rankings still count: all the pairs are "both non-ranked" in them (penalties B[5] / T[5])
+                    nb_rankings_dropped: int = dataset.nb_rankings - new_dataset.nb_rankings
+                    if nb_rankings_dropped > 0:
+                        new_dataset = Dataset(new_dataset.rankings +
+                                              [Ranking([]) for _ in range(nb_rankings_dropped)])
                     rankings: List[Ranking] = self._compute_consensus_rankings_with_optim(new_dataset, scoring_scheme,
                                                                                           False, True)
                     for bucket in rankings[0]:
